@@ -629,17 +629,24 @@ def lay_out(template: str, args: List[ast.expr]) -> Optional[List[Tuple[int, int
     return out
 
 
-def _through_helper(enc: FuncInfo, prog, e, depth: int = 0):
-    """self.<helper>() with no arguments -> the helper's single returned expression (locals expanded)."""
+def _value_leaves(enc: FuncInfo, prog, e, depth: int = 0) -> List[ast.expr]:
+    """The expressions *e* may evaluate to: branches of conditional expressions, and every returned expression of a
+    no-argument helper method on self (if / return chains included; the conditions are ignored, which only enlarges
+    the set of values the recogniser has to accept)."""
     from ..astutil import expand_locals
+    if isinstance(e, ast.IfExp):
+        return _value_leaves(enc, prog, e.body, depth) + _value_leaves(enc, prog, e.orelse, depth)
     if isinstance(e, ast.Call) and not e.args and not e.keywords and (call_chain(e) or ("",))[0] == "self" and len(call_chain(e) or ()) == 2 \
             and enc.cls is not None and depth < 3:
         m = prog.find_method(enc.cls, call_chain(e)[1])
         if m is not None:
             rets = [n for n in ast.walk(m.node) if isinstance(n, ast.Return) and n.value is not None]
-            if len(rets) == 1:
-                return _through_helper(m, prog, expand_locals(rets[0].value, m.node), depth + 1)
-    return e
+            if rets:
+                out: List[ast.expr] = []
+                for r in rets:
+                    out += _value_leaves(m, prog, expand_locals(r.value, m.node), depth + 1)
+                return out
+    return [e]
 
 
 def field_value(layout, off: int, n: int):
@@ -786,18 +793,11 @@ def _check_conjunct(prog, enc: FuncInfo, cj: ast.expr, lay, fields, kind: str) -
         if fv[0] == "lit":
             return [] if _signed(fv[1], fields[attr][1]) in allowed else ["%s = %d not in %s" % (attr, fv[1], sorted(allowed))]
         vals = set()
-        e = _through_helper(enc, prog, fv[1])
-        if isinstance(e, ast.IfExp):
-            for b in (e.body, e.orelse):
-                try:
-                    vals.add(prog.consteval(b, enc.module))
-                except NotConst:
-                    return ["%s value %s is not constant" % (attr, norm(b))]
-        else:
+        for b in _value_leaves(enc, prog, fv[1]):
             try:
-                vals.add(prog.consteval(e, enc.module))
+                vals.add(prog.consteval(b, enc.module))
             except NotConst:
-                return ["%s value %s is not constant" % (attr, norm(e))]
+                return ["%s value %s is not constant" % (attr, norm(b))]
         return [] if vals <= allowed else ["%s may be %s, recogniser needs %s" % (attr, sorted(vals - allowed), sorted(allowed))]
     if not (isinstance(cj, ast.Compare) and len(cj.ops) == 1 and isinstance(cj.left, ast.Attribute) and norm(cj.left.value) == "self"):
         return ["conjunct %s not understood" % txt]
@@ -892,10 +892,11 @@ def r5(ctx: Ctx, rep: Report):
     ok = len(rg) == 1 and len(ws) == 1 and rg[0].args[0].value == ws[0].args[0].value
     if ok:
         sym = Sym.for_function(prog, s)
-        wl = sym.lin(ws[0].args[1])
+        from ..astutil import expand_locals
+        wl = sym.lin(expand_locals(ws[0].args[1], s.node))
         ret = [n for n in ast.walk(g.node) if isinstance(n, ast.Return)][0]
         gs = Sym.for_function(prog, g)
-        gl = gs.lin(ret.value)
+        gl = gs.lin(expand_locals(ret.value, g.node))
         d = ("var", s.params[1])
         # setter: c - d ; getter: c - raw  with the same c
         ok = set(wl.terms) == {d} and wl.terms[d] == -1 and len(gl.terms) == 1 and list(gl.terms.values())[0] == -1 and gl.const == wl.const
